@@ -8,6 +8,8 @@
 (*                                                                         *)
 (*   [i, row, outs : Seq([fmt, outcome \in {"accepted","rejected"},        *)
 (*                        faithful])]                                      *)
+(* faithful = the effective configuration, read back from the real loader, *)
+(* projects onto exactly the row that was rendered.                        *)
 (*                                                                         *)
 (* Server-level events (real binary, --config / environment) have the same *)
 (* shape with fmt = "server-..." and outcome "rejected" iff the process    *)
@@ -34,12 +36,18 @@ AllRejected(e) == \A j \in DOMAIN e.outs : e.outs[j].outcome = "rejected"
 AllAccepted(e) == \A j \in DOMAIN e.outs : e.outs[j].outcome = "accepted"
 Faithful(e)    == \A j \in DOMAIN e.outs : e.outs[j].faithful
 
-\* the verdict
-Ok(e) == MustReject(e.row) => AllRejected(e)
+Derived(e)     == "derived" \in DOMAIN e
+
+\* The verdict.  A rendering whose effective values are not the row's (faithful = FALSE, e.g.
+\* an override that never arrived) says nothing about the row; when such a rendering was
+\* accepted the harness adds a "derived" event carrying the effective configuration that was
+\* accepted instead, and that one is judged here like any other row.
+Ok(e) == MustReject(e.row) =>
+           \A j \in DOMAIN e.outs : e.outs[j].faithful => e.outs[j].outcome = "rejected"
 
 \* rows of the trace, and those accepted in every rendering (evaluated once)
-RowSet       == { Rec[i].row : i \in Idx }
-AcceptedRows == { Rec[i].row : i \in { j \in Idx : AllAccepted(Rec[j]) } }
+RowSet       == { Rec[i].row : i \in { j \in Idx : ~Derived(Rec[j]) } }
+AcceptedRows == { Rec[i].row : i \in { j \in Idx : ~Derived(Rec[j]) /\ Faithful(Rec[j]) /\ AllAccepted(Rec[j]) } }
 
 PosSnap == CHOOSE s \in Snaps : s > 0
 
@@ -62,7 +70,7 @@ Zero == [k \in ClauseNames |-> 0]
 
 TInit == /\ l = 1 /\ bad = <<>> /\ single = Zero /\ boundary = Zero
          /\ cnt = [must |-> 0, must_rejected |-> 0, safe |-> 0, safe_accepted |-> 0,
-                   safe_rejected |-> 0, safe_mixed |-> 0, unfaithful |-> 0, foreign |-> 0]
+                   safe_rejected |-> 0, safe_mixed |-> 0, unfaithful |-> 0, foreign |-> 0, derived |-> 0]
          /\ cfg = [env |-> "none"]
 
 Bump(f, k) == [f EXCEPT ![k] = @ + 1]
@@ -85,7 +93,8 @@ TNext ==
                      !.safe_rejected = @ + (IF ~m /\ AllRejected(e) THEN 1 ELSE 0),
                      !.safe_mixed    = @ + (IF ~m /\ ~AllAccepted(e) /\ ~AllRejected(e) THEN 1 ELSE 0),
                      !.unfaithful    = @ + (IF Faithful(e) THEN 0 ELSE 1),
-                     !.foreign       = @ + (IF e.row \in Rows THEN 0 ELSE 1)]
+                     !.foreign       = @ + (IF e.row \in Rows THEN 0 ELSE 1),
+                     !.derived       = @ + (IF Derived(e) THEN 1 ELSE 0)]
         /\ single' = IF one THEN Bump(single, k) ELSE single
         /\ boundary' = IF one /\ Fix(k, e.row) \in AcceptedRows THEN Bump(boundary, k) ELSE boundary
 
